@@ -480,6 +480,7 @@ struct Rw<'a> {
     arms: Vec<(usize, usize, bool)>,          // match arm bodies (start, end, is_block)
     calls: Vec<(String, usize, bool)>,        // (callee name, end of enclosing statement, stmt is a tail expression)
     stmt_stack: Vec<(usize, bool)>,
+    closures: Vec<(usize, usize, usize, bool)>, // (end of `|params|`, body start, body end, body is a block)
 }
 
 fn path_is(p: &syn::Path, segs: &[&str]) -> bool {
@@ -720,6 +721,15 @@ impl<'a, 'ast> Visit<'ast> for Rw<'a> {
                 self.fire("T6.unsafe_block");
                 let k = self.r(u.unsafe_token.span());
                 self.ed.replace(k, "", "T6.unsafe_block");
+                visit::visit_expr(self, e);
+            }
+            syn::Expr::Closure(c) => {
+                let b = self.r(c.body.span());
+                let hdr_end = match &c.output {
+                    syn::ReturnType::Type(_, t) => self.r(t.span()).1,
+                    syn::ReturnType::Default => self.r(c.or2_token.span()).1,
+                };
+                self.closures.push((hdr_end, b.0, b.1, matches!(&*c.body, syn::Expr::Block(_))));
                 visit::visit_expr(self, e);
             }
             syn::Expr::Match(m) => {
@@ -1042,6 +1052,7 @@ fn new_rw<'a>(src: &'a Src, facts: &'a Facts) -> Rw<'a> {
         arms: vec![],
         calls: vec![],
         stmt_stack: vec![],
+        closures: vec![],
     }
 }
 
@@ -1190,6 +1201,21 @@ fn emit_fn(src: &Src, facts: &Facts, spec: &FnSpec, vspec_name: &str, out: &mut 
                 }
             }
         }
+        let closures = rw.closures.clone();
+        for (k, (hdr_end, bs, be, is_block)) in closures.iter().enumerate() {
+            let key = format!("closure {k}");
+            if let Some(b) = spec.at.get(&key) {
+                // contract of the k-th closure: text goes between `|params|` and the body
+                let t = b.text.trim_end();
+                if *is_block {
+                    rw.ed.splice(*hdr_end, &format!(" {t} "), &tag(&key, b), true);
+                } else {
+                    rw.ed.splice(*hdr_end, &format!(" {t} {{ "), &tag(&key, b), true);
+                    let _ = bs;
+                    rw.ed.suffix(*be, " }", "splice");
+                }
+            }
+        }
         let calls = rw.calls.clone();
         for (pos, b) in spec.at.iter() {
             if let Some(rest) = pos.strip_prefix("after-call ") {
@@ -1218,6 +1244,7 @@ fn emit_fn(src: &Src, facts: &Facts, spec: &FnSpec, vspec_name: &str, out: &mut 
                 Some(("loop-begin", n)) => n.parse::<usize>().map(|n| n < loops.len()).unwrap_or(false),
                 Some(("arm", n)) => n.parse::<usize>().map(|n| n < arms.len()).unwrap_or(false),
                 Some(("after-call", _)) => true,
+                Some(("closure", n)) => n.parse::<usize>().map(|n| n < closures.len()).unwrap_or(false),
                 _ => false,
             };
             if !ok {
